@@ -1133,6 +1133,43 @@ func (o *oracles) checkTags(st stepRef) {
 		}
 		o.s.res.Count("c06_prefetch_checks", 1)
 	}
+	// the same for one result page (a proper subset of the streams): pending
+	// tags are then evaluated for the hits only, but their definitions (sub-
+	// queries in particular) still range over all streams
+	if n := int(o.state.NextStreamID); n >= 2 {
+		k := o.s.stepNo % n
+		page := []string{fmt.Sprintf("id:%d sort:id", k), fmt.Sprintf("id:%d: sort:id", (n+1)/2)}[o.s.stepNo%2]
+		pp := o.s.probe(Op{K: "FreshViewPrefetchPage", Def: page})
+		if pp.View == nil || pp.View.Err != "" {
+			if pp.View != nil && !(strings.Contains(pp.View.Err, "not found") || strings.Contains(pp.View.Err, "same converter name")) {
+				o.violate("view-prefetch", "page-error", "result page with prefetched tags failed: "+pp.View.Err)
+			}
+			return
+		}
+		for _, t := range o.state.Tags {
+			g, ok := r.G[t.Name]
+			if !ok || o.flagged[t.Name] || r.GErr[t.Name] != "" && r.GErr[t.Name] != "impossible" {
+				continue
+			}
+			G := setOf(g)
+			class := o.rootClass(t.Name, r.GErr)
+			for _, sl := range pp.View.Streams {
+				has := false
+				for _, tn := range sl.Tags {
+					if tn == t.Name {
+						has = true
+					}
+				}
+				if has != G[uint(sl.ID)] {
+					if o.violate("view-prefetch", class+"/shown-on-page@"+o.trigger(), fmt.Sprintf("result page %q with prefetched tags shows tag %s on stream %d = %v, definition %q evaluates to %v", page, t.Name, sl.ID, has, t.Definition, G[uint(sl.ID)])) {
+						return
+					}
+					break
+				}
+			}
+			o.s.res.Count("c06_prefetch_page_checks", 1)
+		}
+	}
 }
 
 // defClass groups definitions for violation signatures.
